@@ -210,3 +210,244 @@ Proof.
     destruct S1 as [A1 A2], IH as [B1 B2]. split; [eapply dwf_app; eassumption|eapply pwf_app; eassumption].
 Qed.
 End Loop.
+
+(* ================================================================== Part 4a: what a processor step does to the timing fields *)
+From WH Require Import proofs.ProcC02Proofs.
+
+(* the fields of an aggregation entry that only the cleanup tick (and the creation of the entry) writes *)
+Definition tf (e : entry) : Z * Z * option Z * bool := (first_seen e, retries e, last_retry e, settled e).
+
+Lemma op_eq_cleanup (o : op) : o = Cleanup \/ o <> Cleanup.
+Proof. destruct o; [right; discriminate..|left; reflexivity]. Qed.
+
+Section ProcTiming.
+Variable recover : bytes -> bytes -> option bytes.
+Variable keccak : bytes -> bytes.
+Variable sign : bytes -> bytes.
+Variable own : addr.
+Variable gov_chain : Z.
+Variable gov_addr : bytes.
+Notation step := (Processor.step recover keccak sign own gov_chain gov_addr).
+Notation prun := (Processor.run recover keccak sign own gov_chain gov_addr).
+
+(* a handler other than the cleanup tick leaves the map alone or rewrites ONE entry, keeping its timing fields (a new entry
+   starts at the processor's clock, never retried, not settled) *)
+Definition one_entry (st st' : pstate) : Prop :=
+  agg st' = agg st \/
+  exists h1 e1, agg st' = aset h1 e1 (agg st) /\
+    tf e1 = tf (match alookup h1 (agg st) with Some e => e | None => new_entry (clock st) end).
+
+Lemma handle_obs_shape st ob : let st' := fst (Processor.handle_obs recover st ob) in
+  clock st' = clock st /\ cur st' = cur st /\ one_entry st st'.
+Proof.
+  cbv zeta. unfold Processor.handle_obs.
+  destruct (Processor.rec recover (o_hash ob) (o_sig ob)) as [pk|]; [|cbn; repeat split; left; reflexivity].
+  destruct (negb (bytes_eqb _ pk)); [cbn; repeat split; left; reflexivity|].
+  set (e := alookup (o_hash ob) (agg st)).
+  destruct (match e with Some e' => match gs_snap e' with Some g => Some g | None => cur st end | None => cur st end) as [g|]; [|cbn; repeat split; left; reflexivity].
+  destruct (negb (Processor.memb _ (keys g))); [cbn; repeat split; left; reflexivity|].
+  set (e0 := match e with Some e' => e' | None => new_entry (clock st) end).
+  set (e1 := set_esigs e0 _).
+  assert (K : forall e2, tf e2 = tf e0 -> one_entry st (with_agg st (aset (o_hash ob) e2 (agg st)))).
+  { intros e2 H2. right. exists (o_hash ob), e2. split; [reflexivity|exact H2]. }
+  assert (T1 : tf e1 = tf e0) by reflexivity.
+  destruct (assemble _ _ _) as [sg|]; [|cbn [fst]; repeat split; apply K; exact T1].
+  destruct (our_vaa e1); [|cbn [fst]; repeat split; apply K; exact T1].
+  destruct (_ && _); [|cbn [fst]; repeat split; apply K; exact T1].
+  destruct sg; [cbn [fst]; repeat split; apply K; exact T1|].
+  cbn [fst clock cur]. repeat split. right. exists (o_hash ob), (set_submitted e1). split; [reflexivity|reflexivity].
+Qed.
+
+Lemma bsig_shape st v s tx c : let st' := fst (Processor.broadcast_signature keccak own st v s tx c) in
+  clock st' = clock st /\ cur st' = cur st /\ one_entry st st'.
+Proof.
+  cbv zeta. cbn [Processor.broadcast_signature fst clock cur]. repeat split. right.
+  eexists _, _. split; [reflexivity|]. destruct (alookup _ (agg st)); reflexivity.
+Qed.
+
+Lemma one_entry_refl st : one_entry st st.
+Proof. left. reflexivity. Qed.
+
+Lemma step_shape st o : o <> Cleanup -> let st' := fst (step st o) in
+  clock st' = (match o with SetClock t => t | _ => clock st end) /\ one_entry st st' /\
+  cur st' = (match o with SetGS g => Some g | _ => cur st end).
+Proof.
+  intros Hn. cbv zeta. destruct o as [g|t|m|v|ob|k|b|]; cbn [Processor.step]; try contradiction.
+  - cbn. repeat split. left. reflexivity.
+  - cbn. repeat split. left. reflexivity.
+  - unfold Processor.handle_message. destruct (cur st) eqn:Ec; [|cbn; rewrite ?Ec; repeat split; left; reflexivity].
+    assert (Kst : clock (fst (st, @nil out)) = clock st /\ one_entry st (fst (st, @nil out)) /\ cur (fst (st, @nil out)) = Some g) by (cbn; repeat split; [left; reflexivity|exact Ec]).
+    assert (Kst2 : forall w, clock (fst (st, [Panic w])) = clock st /\ one_entry st (fst (st, [Panic w])) /\ cur (fst (st, [Panic w])) = Some g) by (intros; cbn; repeat split; [left; reflexivity|exact Ec]).
+    assert (Kgo : forall v s tx c, let st' := fst (Processor.broadcast_signature keccak own st v s tx c) in clock st' = clock st /\ one_entry st st' /\ cur st' = Some g).
+    { intros v s tx c. destruct (bsig_shape st v s tx c) as (A & B & C). cbv zeta. rewrite B. auto. }
+    destruct (_ && _); [exact Kst|]. destruct (dlookup _ _); [|apply Kgo].
+    destruct (unmarshal _); [destruct (_ <? _); [exact Kst|apply Kgo]|]. destruct proc_stored_unmarshal_failure_panics; [apply Kst2|apply Kgo].
+  - destruct (bsig_shape st v (sign (Processor.dg keccak v)) [] false) as (A & B & C). unfold Processor.handle_injection. auto.
+  - destruct (handle_obs_shape st ob) as (A & B & C). auto.
+  - destruct (nth_error (loopq st) k) as [ob|]; [|cbn; repeat split; left; reflexivity].
+    match goal with |- context [Processor.handle_obs recover ?s ob] => destruct (handle_obs_shape s ob) as (A & B & C) end.
+    cbn [clock cur agg] in *. split; [exact A|]. split; [|exact B]. exact C.
+  - unfold Processor.handle_inbound. destruct (unmarshal b); [|cbn; repeat split; left; reflexivity]. destruct (cur st) eqn:Ec; [|cbn; rewrite ?Ec; repeat split; left; reflexivity].
+    destruct (_ =? _)%nat; [cbn; rewrite ?Ec; repeat split; left; reflexivity|]. destruct (_ =? _)%nat; [cbn; rewrite ?Ec; repeat split; left; reflexivity|].
+    destruct (proc_inbound_below_quorum _ _); [cbn; rewrite ?Ec; repeat split; left; reflexivity|].
+    destruct (negb _); [cbn; rewrite ?Ec; repeat split; left; reflexivity|]. destruct (dlookup _ _); cbn; rewrite ?Ec; repeat split; left; reflexivity.
+Qed.
+
+(* consequences for one digest *)
+Lemma one_entry_lookup st st' h e : one_entry st st' -> alookup h (agg st) = Some e -> exists e', alookup h (agg st') = Some e' /\ tf e' = tf e.
+Proof.
+  intros [E|(h1 & e1 & E & T)] Hl; rewrite E; [exists e; auto|]. rewrite alookup_aset.
+  destruct (bytes_eqb_spec h h1) as [->|_]; [|exists e; auto]. rewrite Hl in T. exists e1. auto.
+Qed.
+Lemma one_entry_fresh st st' h e' : one_entry st st' -> alookup h (agg st) = None -> alookup h (agg st') = Some e' -> tf e' = tf (new_entry (clock st)).
+Proof.
+  intros [E|(h1 & e1 & E & T)] Hl; rewrite E; [congruence|]. rewrite alookup_aset.
+  destruct (bytes_eqb_spec h h1) as [->|_]; [|congruence]. rewrite Hl in T. intros X. inversion X; subst. exact T.
+Qed.
+Lemma one_entry_keys st st' : one_entry st st' -> KeysND st -> KeysND st'.
+Proof. unfold KeysND. intros [E|(h1 & e1 & E & _)] ND; rewrite E; [exact ND|apply NoDup_keys_aset; exact ND]. Qed.
+
+(* ---- the cleanup tick, entry by entry *)
+Lemma cleanup_all_nodup st now : forall l, NoDup (map fst l) -> NoDup (map fst (fst (cleanup_all st now l))).
+Proof.
+  induction l as [|[k e] l IH]; intros ND; cbn [cleanup_all]; [constructor|]. cbn [map fst] in ND. inversion ND as [|? ? Hn ND']; subst.
+  pose proof (cleanup_all_keys st now l) as Hk. specialize (IH ND'). destruct (cleanup_all st now l) as [t' o']. cbn [fst] in *.
+  destruct (cleanup_entry now _ _ e); cbn [fst map]; [constructor; [intros X; apply Hn; apply Hk; exact X|exact IH]|exact IH|constructor; [intros X; apply Hn; apply Hk; exact X|exact IH]].
+Qed.
+
+Lemma cleanup_all_lookup st now h : forall l, NoDup (map fst l) ->
+  alookup h (fst (cleanup_all st now l)) =
+  match alookup h l with
+  | None => None
+  | Some e => match cleanup_entry now (in_db_of st e) (match cur st with Some _ => true | None => false end) e with
+              | CKeep e' _ => Some e' | CDelete => None | CPanic => Some e end
+  end.
+Proof.
+  induction l as [|[k e] l IH]; intros ND; cbn [cleanup_all]; [reflexivity|]. cbn [map fst] in ND. inversion ND as [|? ? Hn ND']; subst.
+  pose proof (cleanup_all_keys st now l) as Hk. specialize (IH ND'). destruct (cleanup_all st now l) as [t' o'] eqn:Ect. cbn [fst] in *.
+  assert (Hnt : ~ In k (map fst t')) by (intros X; apply Hn; apply Hk; exact X).
+  cbn [alookup]. destruct (bytes_eqb_spec h k) as [->|Hne].
+  - destruct (cleanup_entry now _ _ e); cbn [fst alookup]; rewrite ?bytes_eqb_refl; [reflexivity|apply alookup_notin; exact Hnt|reflexivity].
+  - destruct (cleanup_entry now _ _ e); cbn [fst alookup]; [|exact IH|]; (destruct (bytes_eqb_spec h k); [contradiction|exact IH]).
+Qed.
+
+Lemma cleanup_step_shape st : let st' := fst (step st Cleanup) in
+  clock st' = clock st /\ cur st' = cur st /\ db st' = db st /\ agg st' = fst (cleanup_all st (clock st + 1) (agg st)) /\
+  snd (step st Cleanup) = snd (cleanup_all st (clock st + 1) (agg st)).
+Proof. cbv zeta. cbn [Processor.step]. unfold Processor.handle_cleanup. destruct (cleanup_all st (clock st + 1) (agg st)). cbn. repeat split. Qed.
+
+Lemma step_keysnd st o : KeysND st -> KeysND (fst (step st o)).
+Proof.
+  intros ND. destruct (op_eq_cleanup o) as [->|Hn].
+  - destruct (cleanup_step_shape st) as (_ & _ & _ & E & _). unfold KeysND. rewrite E. apply cleanup_all_nodup. exact ND.
+  - destruct (step_shape st o Hn) as (_ & C & _). eapply one_entry_keys; eassumption.
+Qed.
+End ProcTiming.
+
+(* ================================================================== Part 3: the dispatcher under an arbitrary request stream *)
+Section Dispatcher.
+Import RP.
+
+Lemma mono_ge : forall ops t0 o t, mono t0 ops -> In o ops -> op_time o = Some t -> t0 <= t.
+Proof.
+  induction ops as [|o' ops IH]; intros t0 o t Hm Hin Ht; [destruct Hin|]. cbn [mono] in Hm. destruct Hin as [->|Hin].
+  - rewrite Ht in Hm. destruct Hm; assumption.
+  - destruct (op_time o') as [t'|]; [destruct Hm as [L Hm]; specialize (IH _ _ _ Hm Hin Ht); lia|eapply IH; eassumption].
+Qed.
+
+(* the ops of a run are the ops it was given *)
+Lemma run_ops : forall ops st, map (fun x => snd (fst x)) (R.run st ops) = ops.
+Proof. induction ops as [|o ops IH]; intros st; [reflexivity|]. rewrite run_cons. cbn [map fst snd]. rewrite IH. reflexivity. Qed.
+
+Lemma in_run_in_ops st ops s o x : In (s, o, x) (R.run st ops) -> In o ops.
+Proof. intros H. rewrite <- (run_ops ops st). apply in_map_iff. exists (s, o, x). auto. Qed.
+
+(* position and time: in a history with monotone clock readings, what precedes a step is not later, what follows is not earlier *)
+Lemma run_order st t0 ops pre s o x post t : mono t0 ops -> R.run st ops = pre ++ (s, o, x) :: post -> op_time o = Some t ->
+  (forall s' o' x' t', In (s', o', x') pre -> op_time o' = Some t' -> t' <= t) /\
+  (forall s' o' x' t', In (s', o', x') post -> op_time o' = Some t' -> t <= t').
+Proof.
+  intros Hm Hr Ht. destruct (run_split _ _ _ _ _ Hr) as (ops1 & o1 & ops2 & st1 & -> & E1 & _ & Ex & Epost). injection Ex as _ <- _.
+  apply mono_app in Hm as (t1 & _ & Hm & Hb). cbn [mono] in Hm. rewrite Ht in Hm. destruct Hm as [L Hm]. split.
+  - intros s' o' x' t' Hin Ho. rewrite <- E1 in Hin. apply in_run_in_ops in Hin. specialize (Hb _ _ Hin Ho). lia.
+  - intros s' o' x' t' Hin Ho. rewrite Epost in Hin. apply in_run_in_ops in Hin. eapply mono_ge; eassumption.
+Qed.
+
+(* two steps at different clock readings come in the order of their readings *)
+Lemma run_two st t0 ops a b ta tb : mono t0 ops -> In a (R.run st ops) -> In b (R.run st ops) ->
+  op_time (snd (fst a)) = Some ta -> op_time (snd (fst b)) = Some tb -> ta < tb ->
+  exists pre mid post, R.run st ops = pre ++ a :: mid ++ b :: post.
+Proof.
+  intros Hm Ha Hb Hta Htb Hlt. destruct (in_split _ _ Ha) as (pre & post' & E). destruct a as [[sa oa] xa], b as [[sb ob] xb]. cbn [fst snd] in *.
+  destruct (run_order _ _ _ _ _ _ _ _ _ Hm E Hta) as [Hpre Hpost].
+  rewrite E in Hb. apply in_app_or in Hb as [Hb|[Hb|Hb]].
+  - specialize (Hpre _ _ _ _ Hb Htb). lia.
+  - inversion Hb; subst. rewrite Hta in Htb. inversion Htb. lia.
+  - destruct (in_split _ _ Hb) as (mid & post & E2). exists pre, mid, post. rewrite E, E2. reflexivity.
+Qed.
+
+(* every remembered time of k stems from a forward of k in the history, or was remembered in the starting state *)
+Lemma cache_from_forward : forall ops st k t, In (k, t) (R.cache (R.final st ops)) ->
+  In (k, t) (R.cache st) \/ exists s r c, In (s, R.Req r t, R.Forward c) (R.run st ops) /\ R.key_of r = k.
+Proof.
+  induction ops as [|o ops IH]; intros st k t Hin; [left; exact Hin|]. cbn [R.final] in Hin. rewrite run_cons.
+  destruct (IH _ _ _ Hin) as [Hc|(s & r & c & Hr & Hk)]; [|right; exists s, r, c; split; [right; exact Hr|exact Hk]].
+  destruct o as [r u|u|c].
+  - destruct (req_cases st r u) as [(_ & Ef & Ec)|(Es & _)]; [|rewrite Es in Hc; left; exact Hc].
+    rewrite Ec in Hc. destruct Hc as [Hc|Hc]; [|left; exact Hc]. inversion Hc; subst. right. exists st, r, (R.chain_of r). split; [left; rewrite Ef; reflexivity|reflexivity].
+  - cbn [R.step fst R.cache] in Hc. apply filter_In in Hc as [Hc _]. left. exact Hc.
+  - cbn [R.step] in Hc. destruct (R.find_queue (R.queues st) c) as [q|]; [destruct (R.q_items q)|]; left; exact Hc.
+Qed.
+
+Definition is_fwd (k : R.rkey) (e : R.state * R.op * R.out) : bool :=
+  match e with (_, R.Req r _, R.Forward _) => R.key_eqb (R.key_of r) k | _ => false end.
+
+Lemma nofwd_of_existsb k tr : existsb (is_fwd k) tr = false -> nofwd k tr.
+Proof.
+  intros H s r t c Hin E. assert (X : existsb (is_fwd k) tr = true); [|congruence].
+  apply existsb_exists. exists (s, R.Req r t, R.Forward c). split; [exact Hin|]. cbn. rewrite E. apply key_eqb_refl.
+Qed.
+
+(* THE TIMED FORM of "forwarded again": a purge tick later than t + window, then a request of k that finds room:
+   some request of k has been forwarded after t and not later than that request - whatever else arrived in between *)
+Theorem forward_between st t0 ops k t stau tau s2 r2 u o2 :
+  mono t0 ops -> cache_wf st -> known st (fst k) ->
+  (forall t', In (k, t') (R.cache st) -> t' <= t) ->
+  In (stau, R.Tick tau, R.Purged) (R.run st ops) -> t + reobs_window < tau ->
+  In (s2, R.Req r2 u, o2) (R.run st ops) -> R.key_of r2 = k -> tau < u -> o2 <> R.DropFull ->
+  exists s r f c, In (s, R.Req r f, R.Forward c) (R.run st ops) /\ R.key_of r = k /\ t < f <= u.
+Proof.
+  intros Hm W K Hold Htick Hgap Hreq Hk Hlt Hnf. pose proof window_pos as Wpos.
+  destruct (run_two st t0 ops _ _ tau u Hm Htick Hreq eq_refl eq_refl Hlt) as (pre & mid & post & E).
+  destruct (run_order _ _ _ _ _ _ _ _ _ Hm E eq_refl) as [Hpre Hpost].
+  destruct (existsb (is_fwd k) mid) eqn:Ex.
+  - apply existsb_exists in Ex as ([[s o] x] & Hin & Hf). destruct o as [r f| |]; try discriminate Hf. destruct x; try discriminate Hf.
+    cbn [is_fwd] in Hf. apply key_eqb_eq in Hf. exists s, r, f, c. split; [rewrite E; apply in_or_app; right; right; apply in_or_app; left; exact Hin|]. split; [exact Hf|].
+    assert (A : tau <= f) by (eapply (Hpost s (R.Req r f) (R.Forward c)); [apply in_or_app; left; exact Hin|reflexivity]).
+    assert (E' : R.run st ops = (pre ++ (stau, R.Tick tau, R.Purged) :: mid) ++ (s2, R.Req r2 u, o2) :: post) by (rewrite E, <- app_assoc; reflexivity).
+    destruct (run_order _ _ _ _ _ _ _ _ _ Hm E' eq_refl) as [Hpre2 _].
+    assert (B : f <= u) by (eapply (Hpre2 s (R.Req r f) (R.Forward c)); [apply in_or_app; right; right; exact Hin|reflexivity]). lia.
+  - apply nofwd_of_existsb in Ex.
+    destruct (run_final_split _ _ _ _ _ E) as (ops1 & o & ops2 & -> & Epre & Ex1 & Epost). injection Ex1 as -> <- _.
+    set (sa := R.final st ops1) in *. set (sb := fst (R.step sa (R.Tick tau))) in *.
+    symmetry in Epost. destruct (run_final_split _ _ _ _ _ Epost) as (opsm & o' & opsp & -> & Em & Ex2 & _). injection Ex2 as -> <- Ho2.
+    set (sc := R.final sb opsm) in *.
+    assert (Wb : cache_wf sb) by (apply wf_step; apply wf_final; exact W).
+    assert (Kc : known sc (fst k)) by (apply known_final; apply known_step; apply known_final; exact K).
+    destruct (R.cache_get (R.cache sb) k) as [t3|] eqn:Eg.
+    + (* still remembered after the purge: remembered later than t, hence forwarded later than t *)
+      unfold sb in Eg. cbn [R.step fst R.cache] in Eg. apply cache_get_filter_some in Eg as [Hin3 Hnp].
+      assert (Hge : tau - t3 <= reobs_window) by (destruct (Z_lt_le_dec reobs_window (tau - t3)) as [X|X]; [apply purge_strict in X; congruence|exact X]).
+      destruct (cache_from_forward ops1 st k t3 Hin3) as [Hc|(s & r & c & Hr & Hkk)]; [specialize (Hold _ Hc); lia|].
+      exists s, r, t3, c. rewrite Epre in Hr. split; [rewrite E; apply in_or_app; left; exact Hr|]. split; [exact Hkk|].
+      specialize (Hpre _ _ _ _ Hr eq_refl). lia.
+    + (* forgotten: it stays forgotten until the request, which is therefore forwarded *)
+      assert (Hnone : R.cache_get (R.cache sc) k = None) by (apply stay_none; [exact Eg|rewrite Em; exact Ex]).
+      assert (Ho : o2 = R.Forward (R.chain_of r2)).
+      { subst k. unfold known in Kc. cbn [R.key_of fst] in Kc. rewrite Ho2 in Hnf |- *. cbn [R.step] in Hnf |- *. rewrite Hnone in Hnf |- *. cbn [R.key_of fst] in Hnf |- *.
+        destruct (R.find_queue (R.queues sc) (R.chain_of r2)) as [q|] eqn:Eq; [|contradiction].
+        destruct (R.full q) eqn:Ef; [|reflexivity]. exfalso. apply Hnf. cbn [snd]. rewrite send_nonblocking. reflexivity. }
+      exists sc, r2, u, (R.chain_of r2). split; [|split; [exact Hk|lia]].
+      rewrite E. apply in_or_app; right; right. apply in_or_app; right; left. rewrite Ho. reflexivity.
+Qed.
+End Dispatcher.
